@@ -418,14 +418,13 @@ NamesUnique ==
             opts == [i \in 1..Len(x.eventType.options) |-> x.eventType.options[i].name]
             nested == [i \in 1..Len(x.eventType.nested) |-> x.eventType.nested[i].name]
             keyNames == [i \in 1..Len(x.keys) |-> x.keys[i].name]
-            cmdIdx == {<<i, j>> : i \in 1..Len(x.commands), j \in 1..3} \cap
-                      {p \in (1..Len(x.commands)) \X (1..3) : p[2] <= Len(x.commands[p[1]].methods)}
-            CmdMethod(p) == x.commands[p[1]].methods[p[2]].name
+            cmdIdx == {ix \in (1..Len(x.commands)) \X (1..3) : ix[2] <= Len(x.commands[ix[1]].methods)}
+            CmdMethod(ix) == x.commands[ix[1]].methods[ix[2]].name
         IN NoDup(msgs) /\ NoDup(svcMsgs) /\ NoDup(svcs) /\ NoDup(topics) /\ NoDup(topicMsgs)
            /\ NoDup(opts) /\ NoDup(nested) /\ NoDup(keyNames)
            \* request / response messages of all services share one package: method names are unique across them
-           /\ \A p, q \in cmdIdx : p # q => CmdMethod(p) # CmdMethod(q)
-           /\ \A p \in cmdIdx : \A i \in 1..3 : CmdMethod(p) # x.query.methods[i].name
+           /\ (\A c1, c2 \in cmdIdx : c1 # c2 => CmdMethod(c1) # CmdMethod(c2))
+           /\ (\A c3 \in cmdIdx : \A i \in 1..3 : CmdMethod(c3) # x.query.methods[i].name)
 
 \* declarations only grow, phases only advance
 PhaseRank(p) ==
